@@ -23,6 +23,10 @@ type C03Case struct {
 	Steps   []kit.SubmitStep `json:"steps"`
 	FlushAt []int            `json:"flush_at"`
 	Inner   int              `json:"inner,omitempty"` // 0 mem, 1 cache(mem), 2 bolt, 3 cache(bolt)
+	// CrashAt > 0: a second run of the same schedule is abandoned inside its
+	// CrashAt-th store operation, the live database discards what was not
+	// committed (Cancel) and is reopened in place.
+	CrashAt int `json:"crash_at,omitempty"`
 }
 
 func genC03(t *rapid.T) C03Case {
@@ -35,8 +39,29 @@ func genC03(t *rapid.T) C03Case {
 	if !kit.Thorough() {
 		cfg.MaxBlocks = 18
 	}
+	linearShared := kit.Chance(t, 15, "linear-shared")
+	if linearShared {
+		// no forks (so the history-dependent expiration order, known finding
+		// F-C02-1, cannot arise), v1 contracts sharing window ends: expiration
+		// lists with several entries are edited inside one commit window
+		cfg.ForkPct, cfg.CorruptPct, cfg.BadIntentPct = 0, 0, 0
+		cfg.SharedPct = 100
+		cfg.Kinds = []string{"form", "form", "form", "fcop", "fcop", "pay"}
+		cfg.MaxAllow = 500
+	}
 	tc := kit.GenTree(t, cfg)
+	if tc.SharedWindows {
+		tc.Net.Allow, tc.Net.ReqOff = 500, 10 // v1 regime throughout
+	}
 	c := C03Case{Tree: tc, Steps: kit.GenSchedule(t, len(tc.Blocks), 20), Inner: kit.Uniform(t, 2, "inner")}
+	if tc.SharedWindows {
+		for i := range c.Steps {
+			c.Steps[i].Malleated, c.Steps[i].Validated = false, false
+		}
+	}
+	if kit.Chance(t, 60, "crashroll") {
+		c.CrashAt = 1 + kit.Uniform(t, 2*len(tc.Blocks)+2, "crashat")
+	}
 	if kit.Thorough() || kit.Chance(t, 8, "bolt") {
 		c.Inner = kit.Uniform(t, 4, "inner4") // thorough (and a few quick cases): also Bolt and CacheDB(Bolt)
 	}
@@ -264,6 +289,14 @@ func runC03(c C03Case, cs *kit.CaseStats) error {
 		}
 		rn.Close()
 	}
+	if c.CrashAt > 0 {
+		if err := crashInPlace(tr, c, innerName, cs); err != nil {
+			return err
+		}
+	}
+	if c.Tree.SharedWindows {
+		cs.Class("mode=linear-shared-windows")
+	}
 	cs.Classf("images=%d", min(len(commits)/5*5, 40))
 	cs.Class("inner=" + innerName)
 	cs.Add("images_examined", int64(examined))
@@ -294,3 +327,105 @@ var c03Prop = kit.Prop[C03Case]{
 }
 
 func TestC03(t *testing.T) { c03Prop.Main(t) }
+
+type crashSentinel struct{}
+
+// crashInPlace runs the schedule again on a fresh database, abandons it inside
+// its CrashAt-th store operation, lets the database discard what was not
+// committed (Cancel - what a process stop leaves behind) and reopens it in
+// place. The result must be exactly the store restored from the image recorded
+// at the last commit: nothing done after a commit may change committed data.
+func crashInPlace(tr *kit.Tree, c C03Case, innerName string, cs *kit.CaseStats) error {
+	inner, err := kvm.NewBackend(innerName)
+	if err != nil {
+		return fmt.Errorf("INFRA: %v", err)
+	}
+	defer inner.Close()
+	var lastImg kvm.Image
+	have := false
+	snap := &kvm.SnapDB{Inner: inner.DB, Buckets: []string{"Version", "Network", "MainChain", "States", "Blocks", "FileContracts", "SiacoinElements", "SiafundElements", "Tree"}}
+	snap.OnCommit = func(img kvm.Image) { lastImg, have = img, true }
+	be := &kvm.Backend{Name: "snap(" + innerName + ")", DB: snap, Reopen: func() error { return nil }, Close: func() {}}
+	node, err := kit.OpenNode(tr, be)
+	if err != nil {
+		return fmt.Errorf("INFRA: %v", err)
+	}
+	flushAt := map[int]bool{}
+	for _, f := range c.FlushAt {
+		flushAt[f] = true
+	}
+	ops, sinceCommit := 0, 0
+	onCommitOps := 0
+	prev := snap.OnCommit
+	snap.OnCommit = func(img kvm.Image) { prev(img); onCommitOps = ops }
+	hook := func(consensus.State) bool {
+		ops++
+		if ops == c.CrashAt {
+			panic(crashSentinel{})
+		}
+		return flushAt[ops-1]
+	}
+	node.Hooked.AfterApply = hook
+	node.Hooked.AfterRevert = hook
+	known := func(id types.BlockID) bool { _, ok := node.CM.State(id); return ok }
+	crashed := false
+	for _, st := range c.Steps {
+		_, blocks, states, validated := tr.ResolveBatch(st, known)
+		if len(blocks) == 0 {
+			continue
+		}
+		func() {
+			defer func() {
+				if r := recover(); r != nil {
+					if _, ok := r.(crashSentinel); !ok {
+						panic(r)
+					}
+					crashed = true
+				}
+			}()
+			if validated {
+				node.CM.AddValidatedV2Blocks(blocks, states)
+			} else {
+				node.CM.AddBlocks(blocks)
+			}
+		}()
+		if crashed {
+			break
+		}
+	}
+	if !crashed || !have {
+		cs.Class("crash-in-place:not-reached")
+		return nil
+	}
+	sinceCommit = ops - onCommitOps
+	where := fmt.Sprintf("second run abandoned inside store operation %d (%d operation(s) after the last commit), uncommitted writes discarded, database reopened in place", c.CrashAt, sinceCommit)
+	snap.OnCommit = nil
+	snap.Cancel()
+	live, err := func() (n *kit.Node, err error) {
+		defer func() {
+			if r := recover(); r != nil {
+				err = fmt.Errorf("panic while reopening: %v", r)
+			}
+		}()
+		return kit.OpenNode(tr, &kvm.Backend{Name: "live(" + innerName + ")", DB: inner.DB, Reopen: func() error { return nil }, Close: func() {}})
+	}()
+	if err != nil {
+		return fmt.Errorf("%s: reopening failed: %v", where, err)
+	}
+	img, err := openFromImage(tr, lastImg)
+	if err != nil {
+		return fmt.Errorf("%s: reopening the recorded image failed: %v", where, err)
+	}
+	defer img.Close()
+	a, b := live.Dump(kit.DumpOpts{}), img.Dump(kit.DumpOpts{})
+	if !a.Equal(b) {
+		return fmt.Errorf("%s: the database does not hold what was committed (- live database after discarding uncommitted writes, + image recorded at the last commit):\n%s", where, a.Diff(b))
+	}
+	if sinceCommit > 0 {
+		cs.Class("crash-in-place:operations-after-last-commit")
+		cs.NonTrivial()
+	} else {
+		cs.Class("crash-in-place:right-after-a-commit")
+	}
+	return nil
+}
